@@ -128,8 +128,11 @@ func (v *formatter_) formatArray(array any) {
 		// This is an empty sequence of values.
 		v.appendString(" ")
 	case size == 1:
+		// A single value is formatted inline but still counts as a level of nesting.
+		v.depth_++
 		var value = reflected.Index(0).Interface()
 		v.formatValue(value)
+		v.depth_--
 	default:
 		// This is a multiline sequence of values.
 		v.depth_++
@@ -161,8 +164,11 @@ func (v *formatter_) formatAssociations(associations any) {
 		// This is an empty sequence of associations.
 		v.appendString(":")
 	case size == 1:
+		// A single value is formatted inline but still counts as a level of nesting.
+		v.depth_++
 		var value = iterator.MethodByName("GetNext").Call([]ref.Value{})[0].Interface()
 		v.formatValue(value)
+		v.depth_--
 	default:
 		// This is a multiline sequence of associations.
 		v.depth_++
@@ -307,9 +313,12 @@ func (v *formatter_) formatMap(map_ any) {
 		// This is an empty map of associations.
 		v.appendString(":")
 	case size == 1:
+		// A single association is formatted inline but still counts as a level of nesting.
+		v.depth_++
 		var key = keys[0].Interface()
 		var value = reflected.MapIndex(keys[0]).Interface()
 		v.formatAssociation(key, value)
+		v.depth_--
 	default:
 		// This is a multiline map of associations.
 		v.depth_++
@@ -424,8 +433,11 @@ func (v *formatter_) formatValues(values any) {
 		// This is an empty sequence of values.
 		v.appendString(" ")
 	case size == 1:
+		// A single value is formatted inline but still counts as a level of nesting.
+		v.depth_++
 		var value = iterator.MethodByName("GetNext").Call([]ref.Value{})[0].Interface()
 		v.formatValue(value)
+		v.depth_--
 	default:
 		// This is a multiline sequence of values.
 		v.depth_++
